@@ -1,0 +1,119 @@
+//go:build verif
+
+package flow
+
+// Contracts for the verification machinery in /verif (comment-only file;
+// excluded from every build without the "verif" tag).
+
+// ---- C18: tasks start once, after everything they depend on ----
+
+// ghost: how often a goroutine was started for the task
+//@ ghost field Task.started int
+
+//@ spec func doneT(t *Task) bool { t.state > Running }
+//@ spec func depsDone(t *Task) bool { forall k int :: 0 <= k && k < len(t.depTasks) ==> t.depTasks[k] != nil && doneT(t.depTasks[k]) }
+
+//@ func (*Task).done
+//@   requires t != nil
+//@   ensures result == doneT(t)
+
+//@ func (*Task).isReady
+//@   requires t != nil && forall k int :: 0 <= k && k < len(t.depTasks) ==> t.depTasks[k] != nil
+//@   loop 0 invariant -1 <= rangeindex && forall k int :: 0 <= k && k <= rangeindex ==> doneT(t.depTasks[k])
+//@   ensures result == depsDone(t)
+
+// every task pointer reachable from the controller is well formed
+//@ spec func tasksOK(c *Controller) bool { c != nil && (forall k int :: 0 <= k && k < len(c.tasks) ==> c.tasks[k] != nil) && (forall p *Task, k int :: p != nil && 0 <= k && k < len(p.depTasks) ==> p.depTasks[k] != nil) }
+
+// scheduling invariant: a task that has not been started is Waiting or Ready,
+// a Ready task has all its dependencies terminated, a started task ran once
+//@ spec func schedInv() bool { forall p *Task :: p != nil ==> 0 <= p.state && p.state <= Terminated && ((p.state == Waiting || p.state == Ready) ==> p.started == 0) && (p.state == Running ==> p.started == 1) && p.started <= 1 && (p.state == Ready ==> depsDone(p)) }
+
+//@ func cuedebug.Init
+//@   assumed A-int: parses CUE_DEBUG once
+//@ func mermaidGraph
+//@   assumed A-int: renders the dependency graph; reads only
+//@ func fmt.Fprintln
+//@   assumed A-ext
+//@ func fmt.Fprint
+//@   assumed A-ext
+//@ func (*Controller).addErr
+//@   assumed A-int: appends to c.errs
+//@   assigns c.errs
+//@ func updateFuncEffect
+//@   assumed A-int: the user supplied UpdateFunc observes the controller; it does not change task states
+//@ func cancelEffect
+//@   assumed A-int: cancels the context
+
+// (P) C18: "a task starts only after every task it references has completed":
+// markReady moves a task from Waiting to Ready only when all its dependencies
+// are terminated, and changes nothing else.
+//@ func (*Controller).markReady
+//@   requires tasksOK(c) && schedInv()
+//@   callsite dynamic#0 contract updateFuncEffect
+//@   callsite (*flow.Controller).cancel#0 contract cancelEffect
+//@   loop 0 invariant -1 <= rangeindex && tasksOK(c) && schedInv()
+//@   loop 0 invariant forall p *Task :: p != nil ==> p.state == old(p.state) || (old(p.state) == Waiting && p.state == Ready && depsDone(p))
+//@   loop 0 invariant forall p *Task :: p != nil ==> doneT(p) == old(doneT(p))
+//@   ensures [onlyready] forall p *Task :: p != nil ==> p.state == old(p.state) || (old(p.state) == Waiting && p.state == Ready && depsDone(p))
+//@   ensures [inv] schedInv() && tasksOK(c)
+//@   assigns all Task.state, c.errs
+
+// helpers of runLoop that do not change task states (frame-only, assumed)
+//@ func value.ToInternal
+//@   assumed A-int: unwraps a cue.Value
+//@ func (*adt.Vertex).LeafConjuncts
+//@   assumed A-int: iterator over conjuncts
+//@ func slices.Collect
+//@   assumed A-ext
+//@ func (cue.Value).Exists
+//@   assumed A-int: reads only
+//@ func eval.NewContext
+//@   assumed A-int: allocates an OpContext
+//@ func (*adt.OpContext).Stats
+//@   assumed A-int: returns the counters
+//@ func (*stats.Counts).Add
+//@   assumed A-int: arithmetic on counters
+//@   assigns c.*
+//@ func (stats.Counts).Since
+//@   assumed A-int: arithmetic on counters
+//@ func errors.Promote
+//@   assumed A-int
+//@ func errors.New
+//@   assumed A-int
+//@ func (context.Context).Done
+//@   assumed A-ext
+//@ func (*Controller).updateTaskValue
+//@   assumed A-int: refreshes t.v from the current configuration; task states are not touched
+//@   assigns t.v, t.valueSeq, c.inst, c.valueSeqNum
+//@ func (*Controller).updateTaskResults
+//@   assumed A-int: folds the result of t into the conjuncts; task states are not touched
+//@   assigns c.conjuncts, c.conjunctSeq, t.conjunctSeq, allelems(adt.Conjunct)
+//@ func (*Controller).updateValue
+//@   assumed A-int: re-evaluates the configuration; task states are not touched
+//@   assigns c.inst, c.valueSeqNum
+//@ func (*Controller).initTasks
+//@   assumed A-int (stated as unverified in DESIGN.md): re-initialising the tasks from the new configuration preserves the scheduling invariant
+//@   requires schedInv() && tasksOK(c)
+//@   ensures schedInv() && tasksOK(c)
+//@   ensures forall p *Task :: p != nil ==> p.err == old(p.err)
+//@   assigns heap
+
+// (P) C18: "a task starts only after every task it references ... has completed
+// successfully ...; every task runs at most once ...; a failure ... stops the
+// start of dependants": the go statement is a ghost effect that requires the
+// task to be Running, never started before, with all dependencies terminated;
+// after a failed task markReady is not reached.
+//@ func (*Controller).runLoop
+//@   may_panic
+//@   nocheck bounds
+//@   requires tasksOK(c) && schedInv() && c.errs == nil
+//@   recv_assigns all Task.err
+//@   recv_ensures recv != nil && recv.state == Running && recv.started == 1
+//@   loop 0 invariant tasksOK(c) && schedInv()
+//@   loop 1 invariant -1 <= rangeindex && tasksOK(c) && schedInv()
+//@   effect go#0 requires t != nil && t.state == Running && t.started == 0 && depsDone(t)
+//@   effect go#0 sets t.started = 1
+//@   effect (*flow.Controller).markReady#1 requires t.err == nil
+//@   ensures schedInv()
+//@   assigns heap
